@@ -117,6 +117,18 @@ CHECKS = {
    "Agreement with numerical quadrature declined."),
 }
 
+# sentences appended to the claim text for rules added after the second round of seeded changes
+FRESH = " Aliasing rule: no TDGLSolver/MeshOperators method returns a view of an attribute-held buffer (flow-ordered may-alias analysis)."
+PURE = " Effect rule: no function of the package writes into an array it was handed (frozen output-parameter table excepted)."
+CARRIED = " State rule: the attributes update() both writes and reads across calls stay within the confirmed carried-state table."
+MESHIMM = " Who-may-write rule: Mesh/EdgeMesh geometry (and the x/y views of it) is written by the constructors only."
+EXTRA = {
+ "C01": FRESH, "C02": CARRIED, "C03": MESHIMM, "C07": MESHIMM, "C18": MESHIMM, "C09": PURE, "C11": FRESH + PURE + CARRIED, "C15": FRESH + PURE,
+ "C04": " No caller may build the order-parameter operators without link variables (None) when a later refresh stores complex values into them.",
+ "C10": " Static dtype: a refresh that stores complex link variables into operators assembled from real entries is a difference (also explored "
+        "with the first potential identically zero when the builders test the values of the potential); no caller passes None for the potential.",
+}
+
 NOT_YET = "checker not yet built in this session (static rule planned in DESIGN.md section 3)"
 ALL = [f"C{i:02d}" for i in range(1, 21)]
 
@@ -129,6 +141,7 @@ def main():
             na.append({"property_id": pid, "reason": (ent[4] if ent else NOT_YET)})
             continue
         _, level, tech, text, note = ent
+        text = text + EXTRA.get(pid, "")
         checks.append({
             "property_id": pid,
             "quick_cmd": f"{PY} -m pvs.check {pid} --tier quick",
